@@ -22,6 +22,9 @@ structure CaseOut where
   tags  : List String := []
   /-- non-trivial by the stream's stated rule (reported in the evidence file). -/
   nontrivial : Bool := true
+  /-- canonical view of the implementation's line to compare the model with (when the raw line holds
+      legitimately nondeterministic detail such as Go map iteration order); "" = compare the raw line. -/
+  implView : String := ""
 
 def bad (why : String) : CaseOut := { model := "bad-input:" ++ why, spec := "ok" }
 
